@@ -37,7 +37,7 @@ from mc.checks.mcutil import tj, fj
 PROPERTY = "C24"
 LEVEL = "model_checking"
 RULE = (
-    "per universe (InstantaneousAction; DurativeAction one timing / two timings; Problem timed "
+    "per universe (InstantaneousAction; DurativeAction one timing / two timings / time points given as bare Timepoints; Problem timed "
     "effects one / two timings) all sequences of <= L atoms (= all permutations of all multisets, "
     "with duplicates), each run on a fresh container with rejected insertions kept in the history; "
     "non-trivial = sequence with two atoms on the same fluent and time point"
@@ -87,6 +87,7 @@ def universes(tier):
             ("inst", "inst", [(i, None) for i in FULL], 4),
             ("dur1", "dur", t1(FULL), 4),
             ("dur2", "dur", t2(CORE), 4),
+            ("dur2-tp", "durtp", t2(CORE), 3),
             ("prob1", "prob", t1(NOSIM), 4),
             ("prob2", "prob", t2(NOSIM_CORE), 4),
         ]
@@ -94,6 +95,8 @@ def universes(tier):
         ("inst", "inst", [(i, None) for i in EXTRA], 4),
         ("dur1", "dur", t1(EXTRA), 4),
         ("dur2", "dur", t2(CORE), 4),
+        ("dur1-tp", "durtp", t1(FULL), 4),
+        ("dur2-tp", "durtp", t2(CORE), 4),
         ("prob1", "prob", t1(NOSIM + ["z:=1", "z:=1.0", "z+=1"]), 4),
         ("prob2", "prob", t2(NOSIM_CORE), 4),
         ("inst5", "inst", [(i, None) for i in FULL], 5),
@@ -121,7 +124,10 @@ class World:
     def __init__(self, container):
         from unified_planning.model.timing import StartTiming, EndTiming, GlobalStartTiming
 
-        self.container = container
+        # "durtp": a DurativeAction whose effects name their time point by a bare Timepoint (a legal
+        # TimeExpression) while the simulated effects use the equal Timing
+        self.bare_timepoints = container == "durtp"
+        self.container = container = "dur" if container == "durtp" else container
         self.env = env = fresh_env()
         tm = env.type_manager
         self.em = env.expression_manager
@@ -137,6 +143,11 @@ class World:
             self.tim = {"t1": GlobalStartTiming(1), "t2": GlobalStartTiming(2)}
         else:
             self.tim = {"t1": StartTiming(), "t2": EndTiming()}
+        self.etim = self.tim
+        if self.bare_timepoints:
+            from unified_planning.model.timing import Timepoint, TimepointKind
+
+            self.etim = {"t1": Timepoint(TimepointKind.START), "t2": Timepoint(TimepointKind.END)}
         self.sims = {}
         for name, it in ITEMS.items():
             if it[0] == "sim":
@@ -188,7 +199,7 @@ class World:
                 fn = {"assign": cont.add_effect, "inc": cont.add_increase_effect, "dec": cont.add_decrease_effect}[kind]
             elif self.container == "dur":
                 fn = {"assign": cont.add_effect, "inc": cont.add_increase_effect, "dec": cont.add_decrease_effect}[kind]
-                args.insert(0, self.tim[tname])
+                args.insert(0, self.etim[tname])
             else:
                 fn = {"assign": cont.add_timed_effect, "inc": cont.add_increase_effect, "dec": cont.add_decrease_effect}[kind]
                 args.insert(0, self.tim[tname])
